@@ -116,6 +116,11 @@ def gen_plan(rng, index, tier):
             kw["vkind"] = rng.choice(["float", "int", "arr", "arr2", "none", "all-arr", "all-float", "all-str", "all-bool"])
             if kw["param"] == "vF0":
                 kw["vkind"] = rng.choice(["float", "all-float"])
+            if rng.random() < 0.04:
+                # a parameter that has no default, given a value on one object only
+                kw["param"] = "vN0"
+                kw["vkind"] = "float"
+                kw["level"] = rng.choice(["block", "assembly", "component"])
             if kw["param"] == "vVol":
                 # a volume-integrated quantity is a number (geometry conversions scale it)
                 kw["vkind"] = rng.choice(["float", "all-float", "arr", "all-arr"])
